@@ -234,12 +234,16 @@ ConfigFails(e) ==
     [] e.e = "BSetKey" -> SetKeyFails(e, "builder")
     [] e.e = "CLeeway" -> IF Prop = "FULL" THEN F(e.ret = (IF LeewayValid(e.claim) THEN 0 ELSE 1), "FULL.leeway") ELSE {}
     [] e.e = "BOffset" -> IF Prop = "FULL" THEN F(e.ret = (IF e.claim \in {"exp", "nbf"} THEN 0 ELSE 1), "FULL.offset") ELSE {}
-    [] e.e = "CClaimSet" -> IF Prop = "FULL" THEN F((e.ret = 0) <=> (StrClaim(e.claim) /\ e.val # NONE), "FULL.claimset") ELSE {}
+    [] e.e = "CClaimSet" -> IF Prop = "FULL" THEN F((e.ret = 0) <=> (ClaimSetRet(e.claim, e.val) = 0), "FULL.claimset") ELSE {}
     [] e.e = "CClaimDel" -> IF Prop = "FULL" THEN F((e.ret = 0) <=> StrClaim(e.claim), "FULL.claimdel") ELSE {}
     [] e.e = "CClaimGet" -> IF Prop = "FULL" THEN
                                F(e.val = (IF StrClaim(e.claim) /\ e.claim \in DOMAIN checkers[e.c].expect THEN checkers[e.c].expect[e.claim] ELSE NONE), "FULL.claimget") ELSE {}
     [] e.e = "BIat" -> IF Prop = "FULL" \/ Prop = "C10" THEN F(e.ret = (IF builders[e.b].iat THEN 1 ELSE 0), "C10.iat.ret") ELSE {}
-    [] e.e \in {"CSetCb", "BSetCb"} -> IF Prop = "FULL" THEN F(e.ret = 0, "FULL.setcb") ELSE {}
+    [] e.e \in {"CSetCb", "BSetCb"} ->
+         IF Prop \notin {"FULL", "C03"} THEN {}
+         ELSE IF Has(e, "ctxonly")
+              THEN F((e.ret = 0) <=> (SetCbCtxRet(IF e.e = "CSetCb" THEN checkers[e.c] ELSE builders[e.b]) = 0), Prop \o ".setcbctx")
+              ELSE F(e.ret = 0, Prop \o ".setcb")
     [] e.e \in {"CErrClear", "BErrClear"} -> IF On("C14") THEN F(e.err = 0 /\ e.msg = 0, "C14.errclear") ELSE {}
     [] e.e = "Ops" -> IF On("C12") THEN F(e.ret = OpsSetRet(e.name) /\ e.cur = OpsAfterSet(ops, e.name), "C12.setops") ELSE {}
     [] e.e = "OpsT" -> IF On("C12") THEN F(e.ret = OpsSetTRet(e.id) /\ e.cur = OpsAfterSetT(ops, e.id), "C12.setopst") ELSE {}
@@ -374,6 +378,8 @@ Apply(e) ==
     [] e.e = "CLeeway" -> CLeeway(e.c, e.claim, e.secs, e.ret)
     [] e.e = "CClaimSet" -> CClaimSet(e.c, e.claim, e.val, e.ret)
     [] e.e = "CClaimDel" -> CClaimDel(e.c, e.claim, e.ret)
+    [] e.e = "CSetCb" /\ Has(e, "ctxonly") -> CSetCbCtx(e.c, e.ret)
+    [] e.e = "BSetCb" /\ Has(e, "ctxonly") -> BSetCbCtx(e.b, e.ret)
     [] e.e = "CSetCb" -> CSetCb(e.c, IF Has(e, "prog") THEN e.prog ELSE <<>>, Has(e, "prog"), e.ret)
     [] e.e = "BSetCb" -> BSetCb(e.b, IF Has(e, "prog") THEN e.prog ELSE <<>>, Has(e, "prog"), e.ret)
     [] e.e = "BIat" -> BIat(e.b, e.enable)
